@@ -850,3 +850,119 @@ Print Assumptions C06_window_only_extrema_binary64.
 Print Assumptions C06_prefix_extrema_option_binary64.
 Print Assumptions C06_window_only_extrema_option_binary64.
 Print Assumptions C06_ts_vrank_binary64_no_lookahead.
+
+(* ==================================================================================================================
+   (D) AUDIT (notes/C06.md "Audit matrix"; proofs: Proofs/Audit06.v).
+       (D1) the prefix law at the level of the OUTCOME of the call, for EVERY window: `1 <= w` of (1) is dropped;
+       (D2) the two-series ENTRY points (with the length assertion of the index body and the silent truncation of the
+            iterator body) on series of any lengths: prefix law, window-only law, and the refuted `out_of` form;
+       (D3) a roster: the 14 + 8 one-series add-emit-remove entry points by name, every carrier;
+       (D4) the fractional differences by name; rejected fill values of vshift / vdiff.
+   ================================================================================================================== *)
+From Tevec Require Import Model.Fdiff Proofs.Audit01 Proofs.Audit04 Proofs.Audit05 Proofs.Audit06.
+
+(* the law: whenever the call on the whole series returns, the call on ANY prefix returns the prefix of its result — bit for
+   bit, and in particular the prefix call does not panic *)
+Definition C06_outcome_prefix_law {T O : Type} (f : list T -> outcome O) : Prop :=
+  forall (xs : list T) (k : nat) (out : list O), f xs = Done out -> f (firstn k xs) = Done (firstn k out).
+
+(* (D1) every add-emit-remove feature, any element type / state / output / carrier, both bodies, EVERY window (at window 0 the
+   whole call returns only on the empty series) *)
+Theorem C06_prefix_outcome_every_feature :
+  forall (T St O : Type) (F : feat T St O) (body : bool) (w : nat), C06_outcome_prefix_law (ts_run F body w).
+Proof. intros T St O F body w xs k out. apply ts_run_prefix_outcome. Qed.
+
+Theorem C06_prefix_every_feature_any_window :
+  forall (T St O : Type) (F : feat T St O) (body : bool) (w : nat) (xs : list T) (k : nat),
+    ts_out F body w (firstn k xs) = firstn k (ts_out F body w xs).
+Proof. exact @ts_out_prefix_any_window. Qed.
+
+(* (D2) two-series entry points, series of ANY lengths, every window: cut both series at k *)
+Theorem C06_prefix_two_series_entry :
+  forall (T1 T2 St O : Type) (F : feat (T1 * T2) St O) (body : bool) (w : nat) (xs : list T1) (ys : list T2)
+         (k : nat) (out : list O),
+    ts_run2 F body w xs ys = Done out -> ts_run2 F body w (firstn k xs) (firstn k ys) = Done (firstn k out).
+Proof. exact @ts_run2_prefix_outcome. Qed.
+
+(* the `out_of` form (as in (2), over the zipped series) cannot be stated for the entry point: when the index body rejects
+   the whole call (second series shorter) a prefix that fits is accepted, so "prefix of the result" would be empty *)
+Theorem C06_prefix_two_series_needs_accepted_whole :
+  out_of (ts_run2 (ts_vcov_f (A := Z) (D1 := IsNone_option) (D2 := IsNone_option) 1 (Some 0)) true 1
+                  (firstn 1 [Some 1%Z; Some 2%Z]) (firstn 1 [Some 3%Z]))
+  <> firstn 1 (out_of (ts_run2 (ts_vcov_f (A := Z) (D1 := IsNone_option) (D2 := IsNone_option) 1 (Some 0)) true 1
+                               [Some 1%Z; Some 2%Z] [Some 3%Z])).
+Proof. exact two_series_prefix_needs_accepted_whole. Qed.
+
+(* window-only for cov / corr / regression-on-x (any emit of the cross sums), exact reals: two PAIRS of series of any lengths
+   (accepted by their bodies), each run with either body; equal windows of BOTH series give the same output value *)
+Theorem C06_window_only_two_series_entry :
+  forall (O : Type) (emit : @csum XR -> O) (bx by_ : bool) (w : nat) (xs ys xs' ys' : list XR) (i j : nat),
+    1 <= w -> (bx = false \/ length xs <= length ys) -> (by_ = false \/ length xs' <= length ys') ->
+    i < Nat.min (length xs) (length ys) -> j < Nat.min (length xs') (length ys') ->
+    win w i xs = win w j xs' -> win w i ys = win w j ys' ->
+    exists ox oy o, ts_run2 (csum_feat emit) bx w xs ys = Done ox /\ ts_run2 (csum_feat emit) by_ w xs' ys' = Done oy /\
+                    nth_error ox i = Some o /\ nth_error oy j = Some o.
+Proof. exact @two_series_window_only_entry. Qed.
+
+(* (D3) roster: the null-aware one-series add-emit-remove entry points by name — every carrier A (binary64 bit for bit), every
+   null dictionary (IsNone_never: the 8 plain twins ts_sum .. ts_kurt, ts_ewm, ts_wma), every window and min_periods *)
+Theorem C06_prefix_roster_one_series :
+  forall (A : Type) (NA : Num A) (T : Type) (DT : IsNone T A) (body : bool) (w : nat) (mp : option nat),
+    C06_outcome_prefix_law (ts_run (ts_vsum_f w mp) body w) /\ C06_outcome_prefix_law (ts_run (ts_vmean_f w mp) body w) /\
+    C06_outcome_prefix_law (ts_run (ts_vvar_f w mp) body w) /\ C06_outcome_prefix_law (ts_run (ts_vstd_f w mp) body w) /\
+    C06_outcome_prefix_law (ts_run (ts_vskew_f w mp) body w) /\ C06_outcome_prefix_law (ts_run (ts_vkurt_f w mp) body w) /\
+    C06_outcome_prefix_law (ts_run (ts_vewm_f w mp) body w) /\ C06_outcome_prefix_law (ts_run (ts_vwma_f w mp) body w) /\
+    C06_outcome_prefix_law (ts_vzscore body w mp) /\
+    C06_outcome_prefix_law (ts_run (ts_vreg_f w mp) body w) /\ C06_outcome_prefix_law (ts_run (ts_vtsf_f w mp) body w) /\
+    C06_outcome_prefix_law (ts_run (ts_vreg_slope_f w mp) body w) /\
+    C06_outcome_prefix_law (ts_run (ts_vreg_intercept_f w mp) body w) /\
+    C06_outcome_prefix_law (ts_run (ts_vreg_resid_mean_f w mp) body w).
+Proof.
+  intros A NA T DT body w mp. repeat split; intros xs k out; apply ts_run_prefix_outcome.
+Qed.
+
+(* (D4) the fractional differences by name (slice-form driver, (3)), every carrier and order d *)
+Theorem C06_prefix_fractional_differences :
+  forall (A : Type) (NA : Num A) (T : Type) (DT : IsNone T A) (body : bool) (d : A) (w : nat) (cast : T -> A)
+         (mp : option nat) (xs : list T) (k : nat),
+    1 <= w ->
+    out_of (ts_fdiff body d w cast (firstn k xs)) = firstn k (out_of (ts_fdiff body d w cast xs)) /\
+    out_of (ts_vfdiff body d w mp (firstn k xs)) = firstn k (out_of (ts_vfdiff body d w mp xs)).
+Proof. intros A NA T DT. exact fdiff_prefix. Qed.
+
+(* the hypothesis `or_none d value = Ok v` of (5) is exactly the complement of this rejection: an omitted fill value on an
+   element type whose `none()` panics is refused before anything is read — the same panic on the series and on every prefix *)
+Theorem C06_vshift_vdiff_rejected_fill :
+  forall (X I : Type) (d : NullDict X I) (sub : X -> X -> X) (n : Z) (value : option X) (xs : list X) (k : panic_kind),
+    or_none d value = Panic k -> vshift d n value xs = Panic k /\ vdiff d sub n value xs = Panic k.
+Proof. intros X I d sub n value xs k H. split; [apply vshift_rejected|apply vdiff_rejected]; exact H. Qed.
+
+(* non-vacuity: (D1) at window 0 and at binary64; (D2) a second series LONGER than the first (index body) and SHORTER
+   (iterator body), windows with ties for the arg-extrema (6) *)
+Example C06_example_prefix_outcome :
+  ts_run (ts_vsum_f (A := Z) (DT := IsNone_option) 0 None) true 0 [] = Done [] /\
+  ts_run2 (ts_vcov_f (NA := NumF64) (D1 := IsNoneF64) (D2 := IsNoneF64) 2 (Some 2)) false 2
+          [1%float; 2%float; 4%float] [1%float; 3%float] = Done [nan; 1%float] /\
+  ts_run2 (ts_vcov_f (NA := NumF64) (D1 := IsNoneF64) (D2 := IsNoneF64) 2 (Some 2)) true 2
+          [1%float; 2%float] [1%float; 3%float; 7%float] = Done [nan; 1%float].
+Proof. split; [reflexivity|]. split; vm_compute; reflexivity. Qed.
+Example C06_example_window_two_series_premises :
+  (false = false \/ length [Some 9%R; Some 1%R; Some 2%R] <= length [Some 0%R; Some 4%R]) /\
+  1 < Nat.min (length [Some 9%R; Some 1%R; Some 2%R]) (length [Some 0%R; Some 4%R]) /\
+  win 1 1 [Some 9%R; Some 1%R; Some 2%R] = win 1 0 [Some 1%R].
+Proof. split; [left; reflexivity|]. split; [cbn; lia|reflexivity]. Qed.
+Example C06_example_arg_ties :
+  nth_error (out_of (ts_vargmin (A := Z) (DT := IsNone_option) true 3 (Some 1) [Some 9; Some 2; Some 5; Some 2]%Z)) 3
+  = nth_error (out_of (ts_vargmin (A := Z) (DT := IsNone_option) false 3 (Some 1) [Some 2; Some 5; Some 2]%Z)) 2 /\
+  nth_error (out_of (ts_vargmin (A := Z) (DT := IsNone_option) true 3 (Some 1) [Some 9; Some 2; Some 5; Some 2]%Z)) 3
+  = Some (Some 3).
+Proof. split; vm_compute; reflexivity. Qed.
+
+Print Assumptions C06_prefix_outcome_every_feature.
+Print Assumptions C06_prefix_every_feature_any_window.
+Print Assumptions C06_prefix_two_series_entry.
+Print Assumptions C06_prefix_two_series_needs_accepted_whole.
+Print Assumptions C06_window_only_two_series_entry.
+Print Assumptions C06_prefix_roster_one_series.
+Print Assumptions C06_prefix_fractional_differences.
+Print Assumptions C06_vshift_vdiff_rejected_fill.
